@@ -11,7 +11,7 @@ for id in $IDS; do
     C26) cs="C26 C01";; C03) cs="C03 C01";; C25) cs="C25 C24";;
     C01b) cs="C01 C03";; C03b) cs="C03 C02";; C04b) cs="C04 C02";; C05b) cs="C05 C02";; C06b) cs="C06 C01";; C07b) cs="C07 C01";;
     C14b) cs="C14 C10";; C17b) cs="C17 C10";; C32b) cs="C32 C33";;
-    *) cs="${id%b}";;
+    *) cs="$(echo $id | cut -c1-3)";;
   esac
   tools/seeded.sh $id "$cs" >> $LOG 2>&1
 done
